@@ -592,6 +592,13 @@ func c04Judge(cs *C04Case, alone *c04Alone, run *c04Run, sites *SiteTable) (fail
 			}
 			return "read"
 		}
+		if cf.TaskB == 0 {
+			// a write to package-level state outside any lock / Once / atomic: a race as soon
+			// as two goroutines perform this operation (reported from one task alone)
+			add("conflict-free", fmt.Sprintf("task %d writes package-level state at %s while holding no lock and outside sync.Once: any two goroutines performing this operation race on it", cf.TaskA, a),
+				"package-level-write|"+siteKey(sites, cf.SiteA))
+			continue
+		}
 		add("conflict-free", fmt.Sprintf("data race: task %d %s at %s and task %d %s at %s touch the same location with no happens-before order", cf.TaskA, kind(cf.WriteA), a, cf.TaskB, kind(cf.WriteB), b),
 			siteKey(sites, cf.SiteA)+"~"+siteKey(sites, cf.SiteB))
 	}
